@@ -99,6 +99,16 @@ func main() {
 					if !ok || fd.Body == nil {
 						return true
 					}
+					// files are handed to the finalize goroutine by short-lived
+					// goroutines (`go s.finalizeQueue(f)`); several of them woken by
+					// timers of the same instant would race for the channel: each one
+					// gets a gate, so the order is the scheduler's
+					if fd.Name.Name == "finalizeQueue" && fd.Type.Params != nil && len(fd.Type.Params.List) == 1 && len(fd.Type.Params.List[0].Names) == 1 {
+						arg := fd.Type.Params.List[0].Names[0].Name
+						edits = append(edits, edit{p.Fset.Position(fd.Body.Lbrace).Offset + 1, " fileutil.VerifPoint(\"stage.finalize.queue\", " + arg + ".path); "})
+						nLock++
+						fmt.Fprintf(os.Stderr, "maporder: lock site %s\n", strings.TrimPrefix(p.Fset.Position(fd.Pos()).String(), repo+"/"))
+					}
 					args := map[string]string{}
 					ast.Inspect(fd.Body, func(m ast.Node) bool {
 						as, ok := m.(*ast.AssignStmt)
